@@ -11,6 +11,10 @@
                                  replaced by v; the resource has n text selections
      (7 2 t)                     text resource @include of a JSON file with (t=1) / without text
      (7 3 inc files)             data set @include chain; files = list of (j | -1)
+     (7 4 which)                 "@include": "-" in the store (0) / a data set (1); standard input is open
+     (8 n hasid samekey)         n annotations with one inline data item each, loaded again with 4n:
+                                 safety 5 = more than seven times the cpu time
+     (9 strip arrays)            as (1 ..) with a non-empty store, but through merge_json_str
    sub-cases: [safety] or [safety; result].
      safety: 0 fine, 1 panic, 2 abort, 3 hang, 4 memory over budget, 5 cpu time over budget,
              6 the loaded store is not sane (a lookup panicked / aborted)
@@ -66,7 +70,7 @@ Definition skind_eqb (a b : skind) : bool :=
 Definition all_kinds := [KResource; KAnnotation; KText; KDataSet; KDataKey; KData; KMulti; KComposite; KDirectional].
 
 Definition out_of {T} (o : outcome T) (f : T -> sx) : sx :=
-  match o with Ok a => f a | Err => L [A 0] | Panic => L [A (-1)] | Abort => L [A (-2)] end.
+  match o with Ok a => f a | Err => L [A 0] | Panic => L [A (-1)] | Abort => L [A (-2)] | Hang => L [A (-3)] end.
 
 Definition cursor_sx (c : cursor) : sx :=
   match c with
@@ -133,6 +137,7 @@ Definition safety_sx {T} (o : outcome T) (insane : bool) : sx :=
   match o with
   | Panic => L [A (if insane then 6 else 1)]
   | Abort => L [A 2]
+  | Hang => L [A 3]
   | _ => L [A 0]
   end.
 
@@ -151,6 +156,9 @@ Definition run_targeted (x : sx) : sx :=
   | 2%nat =>
       let o := resource_include false stack_frames (sx_bool (sx_nth 2 x)) in
       L [triple (safety_sx o false) (L [A 0]) 0; triple (res_sx o) (res_sx o) 0]
+  | 4%nat =>
+      let o := include_stdin false true in
+      L [triple (safety_sx o false) (L [A 0]) 0; triple (res_sx o) (res_sx o) 0]
   | _ =>
       let files := map (fun f => sx_onat f) (sx_list (sx_nth 3 x)) in
       let o := ds_include false stack_frames 0 files (sx_onat (sx_nth 2 x)) in
@@ -166,9 +174,14 @@ Definition run_C19 (x : sx) : sx :=
                        (map (fun l => map velem_of (sx_list l)) (sx_list (sx_nth 2 x)))
   | 3%nat =>
       let o := csv_row false (row_of x) in
-      let m := match o with Ok _ => L [A 0] | Err => L [A 1] | Panic => L [A (-1)] | Abort => L [A (-2)] end in
+      let m := match o with Ok _ => L [A 0] | Err => L [A 1] | Panic => L [A (-1)] | Abort => L [A (-2)] | Hang => L [A (-3)] end in
       let s := match o with Ok _ => L [A 0] | Err => L [A 1] | _ => L [A 0] end in
       L [triple m s 0]
   | 7%nat => run_targeted x
+  | 8%nat =>
+      let sl := superlinear (sx_N (sx_nth 1 x)) (sx_bool (sx_nth 2 x)) (sx_bool (sx_nth 3 x)) in
+      L [triple (L [A (if sl then 5 else 0)]) (L [A 0]) (if sl then 4 else 0); triple (L [A 0]) (L [A 0]) 0]
+  | 9%nat => run_visit (sx_bool (sx_nth 1 x)) 1
+                       (map (fun l => map velem_of (sx_list l)) (sx_list (sx_nth 2 x)))
   | _ => L [triple (L [A 0]) (L [A 0]) 0]
   end.
